@@ -136,6 +136,12 @@ func TestVerif_C10(t *testing.T) {
 						node := h.nodeNoCache()
 						cfg := fmt.Sprintf("accepted=%d young=%d edge=%s%+dns pledging=%v", n, young, time.Duration(edge), d, pl)
 						observe(h, node, ts, pledging, cfg)
+						// below the minimum also at the place where certificates are judged: no honest certificate, not
+						// even a unanimous one, is accepted by verifyFinalization
+						if _, base := h.refThreshold(ts, true); base < config.KernelMinimumNodesCount && !pl {
+							r.Count("below-minimum_configurations_measured_at_verifyFinalization", 1)
+							vC10Measure(t, r, h, ts, rng)
+						}
 						if !pl {
 							roundZeroOfAccepted = true
 							observe(h, node, ts, nil, cfg+" round-zero-of-a-running-chain")
